@@ -75,6 +75,19 @@ pub struct GenericHashState {
     state: blake2b::State,
 }
 
+#[cfg(dryoc_verif)]
+impl GenericHashState {
+    /// Verification hook: number of bytes currently buffered.
+    pub fn verif_buf_len(&self) -> usize {
+        self.state.verif_buf_len()
+    }
+
+    /// Verification hook: BLAKE2b byte counter.
+    pub fn verif_counter(&self) -> [u64; 2] {
+        self.state.verif_counter()
+    }
+}
+
 /**
 Initializes the state for the generic hash function using `outlen` for the expected hash output length, and optional `key`, returning it upon success.
 
